@@ -218,7 +218,7 @@ class Interp:
         U = self.U
         if sortname is None:
             return v
-        if isinstance(v, tuple) and v[:1] == ('excval',):
+        if isinstance(v, tuple) and len(v) == 3 and isinstance(v[0], str) and v[0] == 'excval':
             if v[2] is not None:
                 return self.coerce(v[2], sortname)
             consts = getattr(U, 'exc_consts', None)
@@ -582,7 +582,7 @@ class Interp:
                     raise OutsideSubset('no field %s on sort %s' % (attr, sn))
                 raise SymRaise('AttributeError', attr)
             return FuncVal('method', attr, base)
-        if isinstance(base, (list, tuple)) and not (base[:1] == ('opaque',)):
+        if isinstance(base, (list, tuple)) and not (len(base) >= 1 and isinstance(base[0], str) and base[0] == 'opaque'):
             return FuncVal('method', attr, base)
         if isinstance(base, str):
             return FuncVal('method', attr, base)
@@ -592,7 +592,7 @@ class Interp:
             return FuncVal('hook', base.name + '.' + attr, base.attrs[attr])
         if isinstance(base, FuncVal) and attr in ('__module__', '__qualname__', '__name__'):
             return self.fresh('Str', 'name')
-        if isinstance(base, tuple) and base[:1] == ('opaque',):
+        if isinstance(base, tuple) and len(base) >= 1 and isinstance(base[0], str) and base[0] == 'opaque':
             h = getattr(self.U, 'opaque_attr', None)
             if h:
                 return h(self, base, attr)
@@ -838,7 +838,7 @@ class Interp:
         U = self.U
         if isinstance(obj, str) and name == 'format':
             return self.fresh('Str', 'fmt')          # the text of messages is not modelled
-        if isinstance(obj, tuple) and obj[:1] == ('opaque',):
+        if isinstance(obj, tuple) and len(obj) >= 1 and isinstance(obj[0], str) and obj[0] == 'opaque':
             h = getattr(U, 'opaque_method', None)
             if h:
                 return h(self, obj, name, args, kwargs, node)
@@ -1242,7 +1242,7 @@ class Interp:
             name = None
         if name in EXC_LATTICE or name in getattr(self.U, 'exc_lattice', {}):
             raise SymRaise(name, 'raise statement at line %d' % s.lineno)
-        if isinstance(node, ast.Name) and name in self.env and isinstance(self.env[name], tuple) and self.env[name][:1] == ('excval',):
+        if isinstance(node, ast.Name) and name in self.env and isinstance(self.env[name], tuple) and len(self.env[name]) == 3 and isinstance(self.env[name][0], str) and self.env[name][0] == 'excval':
             raise SymRaise(self.env[name][1], 're-raise', term=self.env[name][2])
         v = self.ev(node)
         hook = getattr(self.U, 'raise_hook', None)
